@@ -93,6 +93,12 @@ func newSim(sc Scenario, sink func(trace.M)) (*sim, error) {
 			return nil, fmt.Errorf("pool %s: manifest %s: %w", name, manifest, err)
 		}
 		w.EnvCreate(np)
+		// what the nodepool validation / readiness controllers report for a healthy pool
+		cur := &v1.NodePool{ObjectMeta: metav1.ObjectMeta{Name: name}}
+		w.EnvMutate(cur, "PoolReady", func() {
+			cur.StatusConditions().SetTrue(v1.ConditionTypeValidationSucceeded)
+			cur.StatusConditions().SetTrue(v1.ConditionTypeNodeClassReady)
+		})
 		if _, err := s.npCtrl.Reconcile(s.ctx, reconcile.Request{NamespacedName: types.NamespacedName{Name: name}}); err != nil {
 			return nil, fmt.Errorf("nodepool informer: %w", err)
 		}
@@ -194,8 +200,8 @@ func (s *sim) initialize(i int) {
 		// what the nodeclaim-disruption controller would have decided for this node's kind
 		switch s.sc.KindOf[i-1] {
 		case "drifted":
+			// drifted and not (yet) consolidatable, so that the drift method - not emptiness - picks it
 			c.StatusConditions().SetTrue(v1.ConditionTypeDrifted)
-			c.StatusConditions().SetTrue(v1.ConditionTypeConsolidatable)
 		default:
 			c.StatusConditions().SetTrue(v1.ConditionTypeConsolidatable)
 		}
